@@ -87,6 +87,8 @@ fn c05_strategy(_tier: Tier) -> BoxedStrategy<Case> {
                 (10, gen::ALPHA_FULL),
                 (8, gen::ALPHA_UTF8),
                 (5, gen::ALPHA_HIGHCASE),
+                (4, gen::ALPHA_ONEHIGH),
+                (4, gen::ALPHA_EDGES),
             ],
             no_empty: false,
         })
